@@ -590,14 +590,16 @@ func (qr *QRCode) EncodeToBitmap() (*bitmap.Image, error) {
 
 	mask := qr.Mask
 	if mask == MaskAuto {
+		// Micro QR evaluates the dark modules of the right and lower edges
+		// and selects the pattern with the highest score.
 		var tmp internalbitmap.Image
-		var minPoint int
+		maxPoint := -1
 		mask = Mask0
 		for i := Mask0; i < maskMax; i++ {
 			tmp.Mask(img, used, maskList[i])
-			point := tmp.Point()
-			if point < minPoint {
-				minPoint = point
+			point := tmp.PointMicro()
+			if point > maxPoint {
+				maxPoint = point
 				mask = i
 			}
 		}
